@@ -135,11 +135,20 @@ type Sim struct {
 	Wildcard    int
 	faultPoint  int
 	heldVectors []*delivery
-	deferring   map[int]int // honest sender -> round in which one of its broadcasts was deferred (later ones of that round follow it)
-	NoDefer     bool        // switch the deferral of honest reaction messages off (plain VSS, C09's no-panic networks keep it on)
-	Excluded    map[string]int
-	started     bool
-	startBuf    []*delivery
+	// Accuse: Byzantine non-dealers raise groundless complaints against honest dealers at generated points of rounds 1 and 2.
+	// Accomplice >= 0 (with Template): the Byzantine dealer Dealer/byz[0] and the Byzantine participant Accomplice cooperate:
+	// the dealer publishes an answer "for" the accomplice and the accomplice complains, each at a generated point of a
+	// generated round, in either order, around whatever happens to the honest victim.
+	Accuse                            bool
+	Accomplice                        int
+	AccDealer                         int
+	planned                           []*plannedInj
+	accAnswerRound, accComplaintRound int
+	deferring                         map[int]int // honest sender -> round in which one of its broadcasts was deferred (later ones of that round follow it)
+	NoDefer                           bool        // switch the deferral of honest reaction messages off (plain VSS, C09's no-panic networks keep it on)
+	Excluded                          map[string]int
+	started                           bool
+	startBuf                          []*delivery
 }
 
 func (s *Sim) tracef(format string, a ...any) {
@@ -154,7 +163,7 @@ func (s *Sim) class(c string) { s.Classes[c] = true }
 func New(g *gen.G, proto Protocol, n, t, dealer int, byz []int, swapped bool) *Sim {
 	s := &Sim{G: g, Proto: proto, N: n, T: t, Dealer: dealer, later: map[int][]*delivery{}, bseq: make([]int, n),
 		Dealers: map[int]*DealerInfo{}, HonestComplaints: map[[2]int]int{}, AllComplaints: map[[2]int]int{}, Answers: map[[2]int][]byte{}, FirstVector: map[int][]byte{}, FirstVectorRound: map[int]int{}, Classes: map[string]bool{},
-		Excluded: map[string]int{}, deferring: map[int]int{}, Swapped: swapped, faultsOn: true}
+		Excluded: map[string]int{}, deferring: map[int]int{}, Swapped: swapped, faultsOn: true, Accomplice: -1}
 	isByz := map[int]bool{}
 	for _, b := range byz {
 		isByz[b] = true
@@ -281,7 +290,11 @@ func (s *Sim) honestDelay(d *delivery) int {
 		// second timeout makes an honest dealer answer, so nothing of consequence is dropped.
 		ok = s.Round <= 3
 	}
-	if !ok || !s.G.Chance("honestReactionNextRound", 1, 5) {
+	num := 1
+	if d.data[0] == TagAnswer {
+		num = 2 // answers of honest dealers are rare events: defer two in five
+	}
+	if !ok || !s.G.Chance("honestReactionNextRound", num, 5) {
 		return 0
 	}
 	s.deferring[d.from] = s.Round
@@ -375,7 +388,11 @@ func head(b []byte, n int) []byte {
 // DeliverAll drains the current round's pool in a generated order.
 func (s *Sim) DeliverAll() {
 	guard := 0
-	for len(s.pool) > 0 {
+	for len(s.pool) > 0 || len(s.planned) > 0 {
+		if len(s.pool) == 0 { // nothing left to deliver: what was planned for later in this round happens now
+			s.firePlanned(true)
+			continue
+		}
 		guard++
 		if guard > 20000 {
 			s.G.Fatalf("simulator: round %d does not quiesce (message storm)", s.Round)
@@ -407,7 +424,38 @@ func (s *Sim) DeliverAll() {
 		d := s.pool[i]
 		s.pool = append(s.pool[:i], s.pool[i+1:]...)
 		s.deliver(d)
+		s.firePlanned(false)
 	}
+}
+
+// plannedInj is an unsolicited Byzantine message that is emitted after a generated number of further deliveries of the
+// current round (so it can fall between any two messages of other senders, and after the sender's own reactions).
+type plannedInj struct {
+	after int
+	fire  func()
+}
+
+func (s *Sim) plan(after int, fire func()) {
+	if after <= 0 {
+		fire()
+		return
+	}
+	s.planned = append(s.planned, &plannedInj{after, fire})
+}
+
+func (s *Sim) firePlanned(all bool) {
+	var keep []*plannedInj
+	cur := s.planned
+	s.planned = nil
+	for _, p := range cur {
+		p.after--
+		if all || p.after <= 0 {
+			p.fire()
+		} else {
+			keep = append(keep, p)
+		}
+	}
+	s.planned = append(keep, s.planned...)
 }
 
 func (s *Sim) deliver(d *delivery) {
@@ -625,6 +673,24 @@ func (s *Sim) byzantine(d *delivery) {
 		if s.Template && len(d.data) >= 2 && int(d.data[1]) == s.Victim {
 			// template mode: how the dealer treats the victim's complaint is an explicit dimension of the scenario
 			answerKind = []int{0, 0, 3, 3, 4, 5, 6, 7, 8}[g.Pick("victimAnswerFault", 9)]
+			if s.Accuse && s.Round <= 2 {
+				// ... and, in the accuse template, the same Byzantine dealer accuses an honest dealer shortly after its own answer
+				// (honest receivers may by then have disqualified the accuser, or not yet, depending on the delivery order)
+				b := d.from
+				var honestDealers []int
+				for _, o := range s.Nodes {
+					if !o.Byz && s.isDealer(o.Idx) {
+						honestDealers = append(honestDealers, o.Idx)
+					}
+				}
+				if len(honestDealers) > 0 {
+					acc := honestDealers[g.Pick("accusedAfterAnswer", len(honestDealers))]
+					s.class("accuse:afterOwnAnswer")
+					s.plan(g.Int("accuseAfterAnswer", 1, 8), func() {
+						s.enqueue(&delivery{from: b, to: -1, broadcast: true, data: []byte{TagComplaint, byte(acc)}}, 0)
+					})
+				}
+			}
 		} else {
 			answerKind = s.faultDraw("answerFault", 8)
 		}
@@ -669,7 +735,7 @@ func (s *Sim) byzantine(d *delivery) {
 
 func (s *Sim) vectorFault(d *delivery, di *DealerInfo) {
 	g := s.G
-	kind := s.faultDraw("vectorFault", 14)
+	kind := s.faultDraw("vectorFault", 15)
 	out := append([]byte{}, d.data...)
 	name := ""
 	delay := 0
@@ -720,6 +786,31 @@ func (s *Sim) vectorFault(d *delivery, di *DealerInfo) {
 			t13, _ := bls381.G2SmallOrderPoint([]int64{13, 23}[g.Pick("ord", 2)], []byte{byte(g.Int("ptSeed", 0, 255))})
 			copy(out[o:o+96], bls381.G2Compress(pt.Add(t13), s.Swapped))
 		}
+	case 15:
+		// two entries moved outside G2 by opposite amounts: every entry is a canonical point of E2, the sum of the
+		// entries is unchanged, and (T being added to entry i and subtracted from entry j) so is the value the vector
+		// takes at abscissa 1; neither entry is in G2, so the vector is invalid
+		name = "notInG2"
+		if s.T >= 1 {
+			i := g.Int("cancelElemA", 0, s.T)
+			j := g.Int("cancelElemB", 0, s.T-1)
+			if j >= i {
+				j++
+			}
+			var tp bls381.G2
+			if g.Bool("cancelSmallOrder") {
+				tp, _ = bls381.G2SmallOrderPoint([]int64{13, 23}[g.Pick("ord", 2)], []byte{byte(g.Int("ptSeed", 0, 255))})
+			} else {
+				tp = bls381.G2TorsionPoint([]byte{byte(g.Int("ptSeed", 0, 255))})
+			}
+			pi, e1 := bls381.G2Decompress(out[1+96*i:1+96*i+96], s.Swapped)
+			pj, e2 := bls381.G2Decompress(out[1+96*j:1+96*j+96], s.Swapped)
+			if e1 == nil && e2 == nil && !tp.Inf {
+				copy(out[1+96*i:], bls381.G2Compress(pi.Add(tp), s.Swapped))
+				copy(out[1+96*j:], bls381.G2Compress(pj.Add(tp.Neg()), s.Swapped))
+				s.class("vector:twoEntriesOutsideG2Cancelling")
+			}
+		}
 	case 11:
 		name = "alt"
 		out = append([]byte{TagVector}, di.AltVector...)
@@ -750,6 +841,7 @@ func (s *Sim) vectorFault(d *delivery, di *DealerInfo) {
 // inject lets Byzantine participants broadcast / send unsolicited messages at the start of a round.
 func (s *Sim) inject() {
 	g := s.G
+	s.injectTemplates()
 	for _, nd := range s.Nodes {
 		if !nd.Byz || !s.faultsOn {
 			continue
@@ -764,6 +856,77 @@ func (s *Sim) inject() {
 		}
 		for k := 0; k < cnt; k++ {
 			b := nd.Idx
+			after := 0
+			if g.Chance("injectMidRound", 1, 2) {
+				after = g.Int("injectAfter", 1, 12)
+				s.class("inject:midRound")
+			}
+			s.plan(after, func() { s.injectOne(b) })
+		}
+	}
+}
+
+// injectTemplates plans the messages of the accuse / accomplice templates for the round that begins.
+func (s *Sim) injectTemplates() {
+	g := s.G
+	if !s.faultsOn {
+		return
+	}
+	if s.Accuse && s.Round <= 2 {
+		for _, nd := range s.Nodes {
+			if !nd.Byz || !g.Chance("accuseThisRound", 1, 2) {
+				continue
+			}
+			var honestDealers []int
+			for _, o := range s.Nodes {
+				if !o.Byz && s.isDealer(o.Idx) {
+					honestDealers = append(honestDealers, o.Idx)
+				}
+			}
+			if len(honestDealers) == 0 {
+				continue
+			}
+			b, d := nd.Idx, honestDealers[g.Pick("accused", len(honestDealers))]
+			s.class("accuse:groundlessComplaintAgainstHonestDealer")
+			s.plan(g.Int("accuseAfter", 0, 12), func() {
+				s.enqueue(&delivery{from: b, to: -1, broadcast: true, data: []byte{TagComplaint, byte(d)}}, 0)
+			})
+		}
+	}
+	if s.Accomplice >= 0 {
+		dl, x := s.AccDealer, s.Accomplice
+		if s.accAnswerRound == 0 {
+			s.accAnswerRound, s.accComplaintRound = g.Int("accAnswerRound", 1, 3), g.Int("accComplaintRound", 1, 2)
+		}
+		if s.Round == s.accAnswerRound {
+			s.plan(g.Int("accAnswerAfter", 0, 12), func() {
+				di := s.Dealers[dl]
+				val := scalar32(big.NewInt(int64(1 + g.Int("accAnswerVal", 0, 1000))))
+				kind := "accomplice:dealerAnswersForAccompliceWrongValue"
+				if di != nil && di.Honest[x] != nil && g.Chance("accAnswerCorrect", 2, 3) {
+					val, kind = di.Honest[x], "accomplice:dealerAnswersForAccompliceCorrectValue"
+					if di.VectorFault == "alt" && di.Alt[x] != nil {
+						val = di.Alt[x]
+					}
+				}
+				s.class(kind)
+				s.enqueue(&delivery{from: dl, to: -1, broadcast: true, data: append([]byte{TagAnswer, byte(x)}, val...)}, 0)
+			})
+		}
+		if s.Round == s.accComplaintRound {
+			s.plan(g.Int("accComplaintAfter", 0, 12), func() {
+				s.class("accomplice:accompliceComplains")
+				s.enqueue(&delivery{from: x, to: -1, broadcast: true, data: []byte{TagComplaint, byte(dl)}}, 0)
+			})
+		}
+	}
+}
+
+// injectOne lets Byzantine participant b emit one unsolicited message of a generated kind.
+func (s *Sim) injectOne(b int) {
+	g := s.G
+	{
+		{
 			switch g.Int("injectKind", 0, 9) {
 			case 0: // complaint against any dealer
 				d := s.Dealer
@@ -789,7 +952,7 @@ func (s *Sim) inject() {
 						// known finding F5: an answer that reaches an honest complainer before it has
 						// built its own complaint is overwritten by that complaint.  Excluded by construction.
 						s.Excluded["F5:answerBeforeOwnComplaint"]++
-						continue
+						return
 					}
 				}
 				val := scalar32(big.NewInt(int64(1 + g.Int("answerVal", 0, 1000))))
